@@ -643,6 +643,9 @@ def fault_variants(name, script, blocks, pairs=False, rnd=None, limit=None):
     if not pairs:
         for (idx, kind, idv, occ) in sites:
             v = list(lines)
+            # a failed key/value or logout call is retried by the application
+            if kind == "save" and lines[idx].startswith(("h set", "h del", "h logout")):
+                v.insert(idx + 1, lines[idx])
             v.insert(idx, "fault %s %s %d" % (kind, idv, occ))
             out.append(("%s!%d.%s.%d" % (name, idx, kind, occ), "\n".join(v) + "\n"))
     else:
